@@ -6,6 +6,7 @@
    Bit flips / other messages / cross-suite replays of accepted
    commitments and the binding of blind signatures and proofs rest on collision resistance: correspondence + sweep. *)
 From ZK Require Import Laws BaseLemmas ModelLemmas SignProofs Codec Soundness Extractor.
+From ZK Require Import Malleability.
 From ZK Require Import UpdateProofs Separation Binding BlindComplete BlindBinding.
 
 Theorem C06_blind_sign_gated :
@@ -122,3 +123,25 @@ Check (C06_blind_verify_binding :
      Collision (fun x => f_of_okm (SO E) (expand E x (c_api_id_blind (cs E) ++ c_h2s (cs E)) 48))
                (dom_input E pk Q1 H header (c_api_id_blind (cs E))) (dom_input E pk Q1 H header' (c_api_id_blind (cs E))))).
 Print Assumptions C06_blind_verify_binding.
+
+(* two accepted commitment proofs for the same C with the same challenge field: the same recomputed Cbar, or a collision *)
+Theorem C06_commit_same_challenge_same_Cbar :
+  forall (E : env) (LW : Laws E) C z z' bgs api,
+  core_commit_verify E C z bgs api = Ok tt ->
+  core_commit_verify E C z' bgs api = Ok tt ->
+  z_chal E z = z_chal E z' -> length (z_m_cap E z) = length (z_m_cap E z') ->
+  exists bg G2_ Js, get_range bgs 0 (length (z_m_cap E z) + 1) = Some bg /\ bg = G2_ :: Js /\
+    (commit_Cbar E C G2_ Js z = commit_Cbar E C G2_ Js z' \/
+     Collision (fun x => f_of_okm (SO E) (expand E x (api ++ c_h2s (cs E)) 48))
+               (blind_challenge_octets E C (commit_Cbar E C G2_ Js z) bg) (blind_challenge_octets E C (commit_Cbar E C G2_ Js z') bg)).
+Proof. exact commit_same_challenge_same_Cbar. Qed.
+Check (C06_commit_same_challenge_same_Cbar :
+  forall (E : env) (LW : Laws E) C z z' bgs api,
+  core_commit_verify E C z bgs api = Ok tt ->
+  core_commit_verify E C z' bgs api = Ok tt ->
+  z_chal E z = z_chal E z' -> length (z_m_cap E z) = length (z_m_cap E z') ->
+  exists bg G2_ Js, get_range bgs 0 (length (z_m_cap E z) + 1) = Some bg /\ bg = G2_ :: Js /\
+    (commit_Cbar E C G2_ Js z = commit_Cbar E C G2_ Js z' \/
+     Collision (fun x => f_of_okm (SO E) (expand E x (api ++ c_h2s (cs E)) 48))
+               (blind_challenge_octets E C (commit_Cbar E C G2_ Js z) bg) (blind_challenge_octets E C (commit_Cbar E C G2_ Js z') bg))).
+Print Assumptions C06_commit_same_challenge_same_Cbar.
